@@ -81,3 +81,21 @@ Theorem C04_docstring_kind_and_type_none : forall c code ks d,
   end.
 Proof. exact C04_header. Qed.
 Print Assumptions C04_docstring_kind_and_type_none.
+
+(* Tie to the current source, for ALL inputs: Gen/SrcArgs.v is the translation of code_data/_args.py regenerated on
+   every run (harness/translate_args.py: slices, t[0] raising IndexError on an empty tuple, flag membership / removal /
+   addition, the guarded one-element tuples, the generator expressions of args_to_parameters); its four functions are
+   the model's, so the signature theorems above are about what the source says now. *)
+From PCD Require Base.PyImp Gen.SrcArgs Proofs.SrcArgsTie.
+Theorem C04_args_functions_are_the_source :
+  (forall argcount posonly kwonly varnames fl,
+     PCD.Gen.SrcArgs.Args.args_from_input argcount posonly kwonly varnames fl
+     = args_from_input argcount posonly kwonly varnames fl) /\
+  (forall a, PCD.Gen.SrcArgs.Args.args_to_varnames a = args_to_varnames a) /\
+  (forall a fl, PCD.Gen.SrcArgs.Args.args_to_input a fl = args_to_input a fl) /\
+  (forall a, PCD.Gen.SrcArgs.Args.args_to_parameters a = args_to_parameters a).
+Proof.
+  split; [exact SrcArgsTie.args_from_input_tie|]. split; [exact SrcArgsTie.args_to_varnames_tie|].
+  split; [exact SrcArgsTie.args_to_input_tie | exact SrcArgsTie.args_to_parameters_tie].
+Qed.
+Print Assumptions C04_args_functions_are_the_source.
